@@ -1011,6 +1011,8 @@ def analyze(ctx, want):
             ok_struct = True
             det = ""
             for c in [fn] + list(F.closures_of(fn)):
+                if c is not fn and n_new >= 1:
+                    break        # the closures were analysed in place (as part of next), with the values they receive
                 ex, paths = run_fn(c, F, Model())
                 for p in ret_paths(paths):
                     pcs = p.calls(r"PositionProvider>::position$")
